@@ -181,6 +181,7 @@ EXTRA5['C19'] = ' R12: the source and scope recorded by set_value do not derive 
 EXTRA5['C04'] += ' R14: unmangle_name decodes only isolated escape characters (negative look-behind and look-ahead for the doubled character) into the separator mangle_name wrote for them.'
 EXTRA5['C15'] = ' R12: current_capacity and the snapshot\'s capacity read the ledger _cur_capacity (the counter that still includes connections being closed).'
 EXTRA5['C18'] += ' R3 also: every interpolating return of quote_bytea_literal interpolates a hex encoding of the data.'
+EXTRA5['C01'] += ' R14: the abbreviation `all` is printed only under a guard that implies set equality with the enumeration (equality with its listing, or equal lengths of a duplicate-free list).'
 for _k, _v in EXTRA5.items():
     CLAIMED[_k]['text'] += _v
 LINT_NOTE = (' Rule <id>.L is a battery of slip patterns scoped to the packages the property is anchored in (swapped arguments, like-for-like copies, mirrored / duplicated statements, dropped options, discarded updates, loop slips, memo keys that do not cover the inputs, identity keys, lossy-key maps, cache-key equality, arm-family copies, class-level shared tables, loop-invariant comprehension filters, truthiness tests on int-enum fields with a zero member); each pattern has no unaudited instance on the tree the rules were written against.')
